@@ -1,24 +1,29 @@
 /* C10 driver: a document is fed through the real parser_new/parser_feed/parser_reset of
    src/parser_expat.c with a given partition into chunks and optional restarts.
 
-   input : "<mode> <dochex> <cuts> <resets>"
+   input : "<mode> <dochex> <partitions> <resets>"
              mode   L  libstrophe: canonical log of what the three parser callbacks receive
                     S  raw SAX events of a second, plain expat parser configured like libstrophe's
                        (XML_ParserCreate_MM(NULL, NULL, &namespace_sep)), fed the very same chunks
-                    X  libxml2 SAX2 events of the whole document (cuts/resets ignored)
                     D  like S, with expat's reparse deferral switched off (XML_SetReparseDeferralEnabled
-                       looked up with dlsym; "NOAPI" if this libexpat has no such function)
-                    lower-case l/s/d: additionally a "/" token after every feed (delivery timing)
-             cuts   "-" | "*" (every byte) | p1,p2,...   byte offsets where a new chunk starts
+                       looked up with dlsym; " NOAPI" appended if this libexpat has no such function)
+                    X  libxml2 SAX2 events of the whole document (partitions/resets ignored)
+                    followed by flags: m = consecutive pieces of character data joined into one token,
+                                       t = a "/" token after every feed (delivery timing)
+             partitions  one or more, separated by ";", each "-" (one chunk) | "*" (every byte) |
+                         p1,p2,...  byte offsets where a new chunk starts;
+                         or "#k" (k = 1,2,3): the unsplit document, then EVERY k-cut partition in lexicographic order
              resets "-" | p1,p2,...  offsets (chunk boundaries, 0..len) at which parser_reset is called
                     | @<hexname>  like conn.c/event.c: when a top-level stanza with this local name has been
                       delivered, parser_reset is called after the feed in progress has returned
-   output: tokens separated by one blank (all strings hex, "-" = empty)
+   output: one result per partition, separated by " ; "; a result equal to the first one (the feed number
+           in E<k> aside) is printed as "=".  A result is a list of tokens separated by one blank (all
+           strings hex, "-" = empty)
              L: O(name;k=v,k=v)   stream start, raw attribute names as handed to the callback, sorted
                 Z(tree)           stanza; tree = e(name|k=v,...|children) | t(text) | u()
                 C(name)           stream end (raw name as handed to the callback)
-             S/X: s(qname;k=v,...) (attribute order as delivered)  e(qname)  c(bytes)
-             both: R reset, E<k> feed number k failed (feeding stops), "/" feed boundary
+             S/D/X: s(qname;k=v,...) (attribute order as delivered)  e(qname)  c(bytes)
+             all: R reset, E<k> feed number k failed (feeding stops), "/" feed boundary
 */
 #include "vharness.h"
 #include "common.h"
@@ -59,6 +64,8 @@ static void ob_sep(void) { if (ob_len) ob_putc(' '); }
 static const char *trig = NULL;   /* local name, NUL terminated */
 static int trig_pending = 0;
 static int sx_depth = 0;
+static int opt_merge = 0;         /* join consecutive pieces of character data into one c(...) token */
+static int last_chars = 0;        /* the last token written is a c(...) */
 
 /* ---- sorted attribute lists ---- */
 typedef struct { const char *k, *v; } kv_t;
@@ -129,17 +136,32 @@ static void cb_stanza(xmpp_stanza_t *st, void *ud)
     if (trig && st->type == XMPP_STANZA_TAG && st->data && strcmp(st->data, trig) == 0) trig_pending = 1;
 }
 
+/* character data token; in merge mode a piece directly following another joins it */
+static void put_chars(const unsigned char *s, size_t n)
+{
+    if (opt_merge && last_chars && ob_len && ob[ob_len - 1] == ')') {
+        if (n) {
+            if (ob_len >= 3 && ob[ob_len - 2] == '-' && ob[ob_len - 3] == '(') ob_len -= 2; else ob_len -= 1;
+            ob[ob_len] = 0;
+            ob_hex(s, n); ob_putc(')');
+        }
+        return;
+    }
+    ob_sep(); ob_puts("c("); ob_hex(s, n); ob_putc(')');
+    last_chars = 1;
+}
+
 /* ---- plain expat side ---- */
 static void XMLCALL sx_start(void *ud, const XML_Char *n, const XML_Char **a)
 {
     (void)ud;
-    sx_depth++;
+    sx_depth++; last_chars = 0;
     ob_sep(); ob_puts("s("); ob_hexs(n); ob_putc(';'); put_attr_array((const char **)a, 0); ob_putc(')');
 }
 static void XMLCALL sx_end(void *ud, const XML_Char *n)
 {
     (void)ud;
-    sx_depth--;
+    sx_depth--; last_chars = 0;
     ob_sep(); ob_puts("e("); ob_hexs(n); ob_putc(')');
     if (trig && sx_depth == 1) {
         const char *l = strchr(n, namespace_sep);
@@ -150,7 +172,7 @@ static void XMLCALL sx_end(void *ud, const XML_Char *n)
 static void XMLCALL sx_chars(void *ud, const XML_Char *s, int len)
 {
     (void)ud;
-    ob_sep(); ob_puts("c("); ob_hex((const unsigned char *)s, len < 0 ? 0 : (size_t)len); ob_putc(')');
+    put_chars((const unsigned char *)s, len < 0 ? 0 : (size_t)len);
 }
 typedef XML_Bool (*deferral_fn)(XML_Parser, XML_Bool);
 static int set_deferral(XML_Parser p, int on)
@@ -188,6 +210,7 @@ static void lx_start(void *ctx, const xmlChar *local, const xmlChar *prefix, con
 {
     int i;
     (void)ctx; (void)prefix; (void)nns; (void)nss; (void)ndef;
+    last_chars = 0;
     ob_sep(); ob_puts("s("); put_q(uri, local); ob_putc(';');
     for (i = 0; i < nattr; i++) {
         const xmlChar *al = attrs[5 * i], *au = attrs[5 * i + 2], *vb = attrs[5 * i + 3], *ve = attrs[5 * i + 4];
@@ -199,12 +222,13 @@ static void lx_start(void *ctx, const xmlChar *local, const xmlChar *prefix, con
 static void lx_end(void *ctx, const xmlChar *local, const xmlChar *prefix, const xmlChar *uri)
 {
     (void)ctx; (void)prefix;
+    last_chars = 0;
     ob_sep(); ob_puts("e("); put_q(uri, local); ob_putc(')');
 }
 static void lx_chars(void *ctx, const xmlChar *s, int len)
 {
     (void)ctx;
-    ob_sep(); ob_puts("c("); ob_hex(s, len < 0 ? 0 : (size_t)len); ob_putc(')');
+    put_chars(s, len < 0 ? 0 : (size_t)len);
 }
 static void lx_silent(void *ctx, const char *msg, ...) { (void)ctx; (void)msg; }
 static void lx_serror(void *ctx, xmlErrorPtr e) { (void)ctx; (void)e; }
@@ -226,18 +250,18 @@ static void run_libxml2(const unsigned char *doc, size_t len)
     sax.serror = lx_serror;
     c = xmlCreatePushParserCtxt(&sax, NULL, NULL, 0, NULL);
     if (!c) { ob_sep(); ob_puts("E0"); return; }
-    xmlCtxtUseOptions(c, XML_PARSE_NOENT | XML_PARSE_NONET);
+    xmlCtxtUseOptions(c, XML_PARSE_NOENT | XML_PARSE_NONET | XML_PARSE_DTDATTR);
     xmlParseChunk(c, (const char *)doc, (int)len, 1);
     if (!c->wellFormed || !c->nsWellFormed) { ob_sep(); ob_puts("E0"); }
     xmlFreeParserCtxt(c);
 }
 
 /* ---- case parsing ---- */
-static size_t *parse_list(const char *s, size_t len, size_t *n, int star_ok)
+static size_t *parse_list(const char *s, const char *end, size_t len, size_t *n, int star_ok)
 {
     size_t cap = 16, *r = malloc(cap * sizeof(size_t));
     *n = 0;
-    if (s[0] == '-' ) return r;
+    if (s >= end || s[0] == '-') return r;
     if (s[0] == '*' && star_ok) {
         size_t i;
         free(r);
@@ -245,7 +269,7 @@ static size_t *parse_list(const char *s, size_t len, size_t *n, int star_ok)
         for (i = 1; i < len; i++) r[(*n)++] = i;
         return r;
     }
-    while (*s) {
+    while (s < end && *s) {
         char *e;
         unsigned long v = strtoul(s, &e, 10);
         if (e == s) break;
@@ -255,28 +279,95 @@ static size_t *parse_list(const char *s, size_t len, size_t *n, int star_ok)
     }
     return r;
 }
-static int in_list(size_t *l, size_t n, size_t v)
+static int in_list(const size_t *l, size_t n, size_t v)
 {
     size_t i;
     for (i = 0; i < n; i++) if (l[i] == v) return 1;
     return 0;
 }
 
+static xmpp_ctx_t *ctx;
+static int opt_timing, opt_nodefer;
+
+static void do_reset(parser_t *lp, XML_Parser xp)
+{
+    trig_pending = 0; sx_depth = 0; last_chars = 0;
+    ob_sep(); ob_putc('R');
+    if (lp) parser_reset(lp);
+    else { XML_ParserReset(xp, NULL); sx_install(xp); if (opt_nodefer) set_deferral(xp, 0); }
+}
+
+/* one document, one partition: appends the event log to ob.  returns 0 if the deferral API is missing */
+static int run_case(char mode, const unsigned char *doc, size_t len, const size_t *cuts, size_t ncuts,
+                    const size_t *res, size_t nres)
+{
+    parser_t *lp = NULL;
+    XML_Parser xp = NULL;
+    size_t pos = 0, b;
+    int k = 0;
+
+    trig_pending = 0; sx_depth = 0; last_chars = 0;
+    if (mode == 'L') {
+        lp = parser_new(ctx, cb_start, cb_end, cb_stanza, NULL);
+    } else {
+        xp = XML_ParserCreate_MM(NULL, NULL, &namespace_sep);
+        sx_install(xp);
+        if (opt_nodefer && !set_deferral(xp, 0)) { XML_ParserFree(xp); return 0; }
+    }
+    if (in_list(res, nres, 0)) do_reset(lp, xp);
+    for (b = 1; b <= len; b++) {
+        int is_cut = (b == len) || in_list(cuts, ncuts, b), is_res = in_list(res, nres, b);
+        size_t n = b - pos;
+        char *chunk;
+        int ok;
+        if (!is_cut && !is_res) continue;
+        /* exact-size heap copy so that an over-read of the chunk is trapped */
+        chunk = malloc(n ? n : 1);
+        memcpy(chunk, doc + pos, n);
+        ok = lp ? parser_feed(lp, chunk, (int)n) : (XML_Parse(xp, chunk, (int)n, 0) != XML_STATUS_ERROR);
+        free(chunk);
+        pos = b;
+        if (!ok) {
+            char t[32];
+            snprintf(t, sizeof t, "E%d", k);
+            ob_sep(); ob_puts(t);
+            break;
+        }
+        k++;
+        if (opt_timing) { ob_sep(); ob_putc('/'); last_chars = 0; }
+        if (is_res || trig_pending) do_reset(lp, xp);
+    }
+    if (lp) parser_free(lp);
+    if (xp) XML_ParserFree(xp);
+    return 1;
+}
+
+/* copy of a log with the feed number of E<k> removed (it depends on the partition by construction) */
+static char *norm_log(const char *s)
+{
+    size_t n = strlen(s), i, j = 0;
+    char *r = malloc(n + 1);
+    for (i = 0; i < n; i++) {
+        r[j++] = s[i];
+        if (s[i] == 'E' && (i == 0 || s[i - 1] == ' ')) while (i + 1 < n && s[i + 1] >= '0' && s[i + 1] <= '9') i++;
+    }
+    r[j] = 0;
+    return r;
+}
+
 int main(void)
 {
     char *line;
-    xmpp_ctx_t *ctx = xmpp_ctx_new(&vh_mem, NULL);
+    ctx = xmpp_ctx_new(&vh_mem, NULL);
     xmlInitParser();
     while ((line = vh_getline())) {
-        char mode, *f[4], *p = line;
-        int nf = 0, timing, k = 0, failed = 0;
-        size_t len, ncuts, nres, pos, b;
+        char mode, *f[4], *p = line, *q;
+        int nf = 0, first = 1, noapi = 0;
+        size_t len, nres;
         unsigned char *doc;
-        size_t *cuts, *res;
-        parser_t *lp = NULL;
-        XML_Parser xp = NULL;
+        size_t *res;
+        char *trigbuf = NULL, *ref = NULL;
 
-        ob_len = 0; if (ob) ob[0] = 0;
         while (nf < 4 && *p) {
             f[nf++] = p;
             while (*p && *p != ' ') p++;
@@ -286,78 +377,60 @@ int main(void)
         if (nf < 3) f[2] = "-";
         if (nf < 4) f[3] = "-";
         mode = f[0][0];
-        int nodefer = 0;
-        char *trigbuf = NULL;
-        timing = (mode == 'l' || mode == 's' || mode == 'd');
-        if (mode == 'l') mode = 'L';
-        if (mode == 's') mode = 'S';
-        if (mode == 'd') mode = 'D';
-        if (mode == 'D') { mode = 'S'; nodefer = 1; }
-        trig = NULL; trig_pending = 0; sx_depth = 0;
+        opt_timing = strchr(f[0] + 1, 't') != NULL;
+        opt_merge = strchr(f[0] + 1, 'm') != NULL;
+        opt_nodefer = 0;
+        if (mode == 'D') { mode = 'S'; opt_nodefer = 1; }
+        trig = NULL;
         doc = vh_unhex(f[1], &len);
         if (mode == 'X') {
+            ob_len = 0; if (ob) ob[0] = 0; last_chars = 0;
             run_libxml2(doc, len);
             puts(ob_len ? ob : "-"); fflush(stdout); free(doc);
             continue;
         }
-        cuts = parse_list(f[2], len, &ncuts, 1);
         if (f[3][0] == '@') {
             size_t tl;
             unsigned char *t = vh_unhex(f[3] + 1, &tl);
             trigbuf = malloc(tl + 1); memcpy(trigbuf, t, tl); trigbuf[tl] = 0; free(t);
             trig = trigbuf;
-            res = parse_list("-", len, &nres, 0);
+            { static const char dash[] = "-"; res = parse_list(dash, dash + 1, len, &nres, 0); }
         } else
-            res = parse_list(f[3], len, &nres, 0);
-        if (mode == 'L') {
-            lp = parser_new(ctx, cb_start, cb_end, cb_stanza, NULL);
+            res = parse_list(f[3], f[3] + strlen(f[3]), len, &nres, 0);
+
+        /* the partitions: "#k" = the unsplit document, then every k-cut partition in lexicographic order;
+           otherwise a ';'-separated list.  A result equal to the first one (feed numbers of E aside) is
+           printed as "=" */
+#define EMIT(cuts_, n_) do { \
+            ob_len = 0; if (ob) ob[0] = 0; \
+            if (!run_case(mode, doc, len, (cuts_), (n_), res, nres)) noapi = 1; \
+            { const char *o_ = ob_len ? ob : "-"; char *nl_ = norm_log(o_); \
+              if (first) { ref = nl_; fputs(o_, stdout); first = 0; } \
+              else { fputs(" ; ", stdout); fputs(strcmp(nl_, ref) == 0 ? "=" : o_, stdout); free(nl_); } } \
+        } while (0)
+        if (f[2][0] == '#') {
+            int kk = atoi(f[2] + 1);
+            size_t c[3] = {0, 0, 0};
+            EMIT(c, 0);
+            if (kk == 1) { for (c[0] = 1; c[0] < len; c[0]++) EMIT(c, 1); }
+            else if (kk == 2) { for (c[0] = 1; c[0] < len; c[0]++) for (c[1] = c[0] + 1; c[1] < len; c[1]++) EMIT(c, 2); }
+            else if (kk == 3) { for (c[0] = 1; c[0] < len; c[0]++) for (c[1] = c[0] + 1; c[1] < len; c[1]++)
+                                    for (c[2] = c[1] + 1; c[2] < len; c[2]++) EMIT(c, 3); }
         } else {
-            xp = XML_ParserCreate_MM(NULL, NULL, &namespace_sep);
-            sx_install(xp);
-            if (nodefer && !set_deferral(xp, 0)) {
-                puts("NOAPI"); fflush(stdout);
-                XML_ParserFree(xp); free(doc); free(cuts); free(res); free(trigbuf);
-                continue;
+            q = f[2];
+            for (;;) {
+                char *e = strchr(q, ';');
+                size_t ncuts, *cuts = parse_list(q, e ? e : q + strlen(q), len, &ncuts, 1);
+                EMIT(cuts, ncuts);
+                free(cuts);
+                if (!e) break;
+                q = e + 1;
             }
         }
-        pos = 0;
-        if (in_list(res, nres, 0)) {
-            ob_sep(); ob_putc('R');
-            if (lp) parser_reset(lp); else { XML_ParserReset(xp, NULL); sx_install(xp); if (nodefer) set_deferral(xp, 0); }
-        }
-        for (b = 1; b <= len && !failed; b++) {
-            int is_cut = (b == len) || in_list(cuts, ncuts, b), is_res = in_list(res, nres, b);
-            if (!is_cut && !is_res) continue;
-            {
-                /* exact-size heap copy so that an over-read of the chunk is trapped */
-                size_t n = b - pos;
-                char *chunk = malloc(n ? n : 1);
-                int ok;
-                memcpy(chunk, doc + pos, n);
-                ok = lp ? parser_feed(lp, chunk, (int)n) : (XML_Parse(xp, chunk, (int)n, 0) != XML_STATUS_ERROR);
-                free(chunk);
-                pos = b;
-                if (!ok) {
-                    char t[32];
-                    snprintf(t, sizeof t, "E%d", k);
-                    ob_sep(); ob_puts(t);
-                    failed = 1;
-                    break;
-                }
-                k++;
-                if (timing) { ob_sep(); ob_putc('/'); }
-            }
-            if (is_res || trig_pending) {
-                trig_pending = 0; sx_depth = 0;
-                ob_sep(); ob_putc('R');
-                if (lp) parser_reset(lp); else { XML_ParserReset(xp, NULL); sx_install(xp); if (nodefer) set_deferral(xp, 0); }
-            }
-        }
-        if (lp) parser_free(lp);
-        if (xp) XML_ParserFree(xp);
-        puts(ob_len ? ob : "-");
+        if (noapi) fputs(" NOAPI", stdout);
+        putchar('\n');
         fflush(stdout);
-        free(doc); free(cuts); free(res); free(trigbuf);
+        free(ref); free(doc); free(res); free(trigbuf);
     }
     xmpp_ctx_free(ctx);
     return 0;
